@@ -23,7 +23,7 @@ Record closed : Prop := {
   c_despawn : forall t w, I w -> I (despawn t w);
   c_cbbump : forall t cb b w, I w -> alookup t (cbs w) = Some cb -> I (cb_bump t cb b w);
   c_oncefin : forall t tk w, I w -> I (once_finish t tk w);
-  c_body : forall sd t r c w, I w -> I (body_begin P sd t r c w);
+  c_body : forall sd t r c w, body_guard t r c w = true -> I w -> I (body_begin P sd t r c w);
   c_clear : forall w, I w -> I (clear_trackers w);
 }.
 
@@ -134,8 +134,8 @@ Proof.
     + eapply IH; [|exact E]. apply (c_cbbump HC); [exact Hw|exact EC].
   - (* IBody *)
     cbn zeta in E. set (sd := sys_or_default P t) in *.
-    destruct (negb (fresh_claim_b t w)); [discriminate E|].
-    assert (Hb : I (body_begin P sd t runno captured w)) by (apply (c_body HC); exact Hw).
+    destruct (body_guard t runno captured w) eqn:EG; [|discriminate E]. cbn [negb] in E.
+    assert (Hb : I (body_begin P sd t runno captured w)) by (apply (c_body HC); [exact EG|exact Hw]).
     destruct (sd_kind sd).
     + destruct (acts P (OSys t runno) 0 (script_of P t runno) (body_begin P sd t runno captured w)) as [w1 cs] eqn:EA.
       eapply IH; [|exact E]. apply closed_plain_cleanup. eapply closed_acts'; eauto.
